@@ -1,11 +1,15 @@
 import GohtVerif.Proofs.C16
 import GohtVerif.Proofs.Lemmas.WriterPos
+import GohtVerif.Proofs.Lemmas.LexFragRun
 /-! # C07 — the source map relates identical Go text in template and generated file
 
 The composite claim is the conjunction of (a) the lexer reports the true start of every fragment,
 (b) the writer reports the true start of what it writes, (c) `Add` relates equal offsets of equal
 lines of the same literal, (d) lookups return what `Add` registered. (b), (c), (d) are proved here
-for every input; (a) is tied (O-emit.map: tables entry for entry) and searched by the oracle. -/
+for every input; (a) is proved for the tokens the lexer hands to the parser (`fragment_tokens_true_position`,
+every input whose runes kept the width of their encoding, i.e. well-formed UTF-8); what the emitter then does
+with a token's position (shift past a format verb, past trimmed blanks) is tied (O-emit.map: tables entry for
+entry) and searched by the oracle. -/
 namespace GL.C07
 
 /-- (b) the range returned by `write s` starts where the writer stood, and the text grows by exactly `s`. -/
@@ -74,7 +78,36 @@ example : fragsOfAdd { typ := .attrDynamicValue, lit := [97, 44, 10, 98], line :
     { frm := { line := 20, col := 31 }, to := { line := 21, col := 2 } } =
     [⟨3, 6, 19, 30, 2⟩, ⟨4, 0, 20, 0, 1⟩] := by decide +kernel
 
--- PLANNED: lexer_positions — for every fragment-bearing token the reported (line, col) is the UTF-16 start of a source slice equal to `lit` (valid UTF-8 input)
+/-- (a) **the lexer reports the true start of every Go fragment** — for every input, every token of a
+fragment type (script, silent script, dynamic attribute value, interpolation, object reference, `@render`
+arguments, `@attributes` arguments) that the lexer delivers has as its text a contiguous stretch `sr` of the
+input, `input = pre ++ sr ++ rest` (as runes), and as its (line, column) the 1-based line and the 1-based
+UTF-16 column of the first character of that stretch: the number of lines of `pre`, and one more than the
+UTF-16 length of `pre`'s last line.  Rests on three invariants of all 49 state functions: the lexer's
+line/column bookkeeping is the true position of the read cursor (`step_tinv`), the fragment states are only
+entered with an empty pending literal (`step_clean`), and only the seven fragment states emit fragment tokens
+(`step_frag`).  Hypothesis: no rune of the input was read from an ill-formed byte (then Go appends the
+three-byte U+FFFD to the literal but cuts one byte off when it skips or backs up). -/
+theorem fragment_tokens_true_position (input : GoStr) (hwf : WF (decodeAll input)) :
+    ∀ t ∈ (lexResult input).toks, isFrag t.typ = true → TokAt (decodeAll input) t := by
+  have hg : Good (decodeAll input) := ⟨runeOK_decodeFuel _ _, encOK_decodeFuel _ _, hwf⟩
+  exact run_frag hg _ _ _ [] (tinv_initL input) (fun h => by cases h) rfl (fun t ht => by cases ht)
+
+/-- in every configuration the lexer passes through, its line/column bookkeeping is the UTF-16 position of
+the read cursor (lines read so far, current line first; a line's length includes its line feed) -/
+theorem lexer_bookkeeping_is_cursor_position (input : GoStr) (st : St) (l : L) (h : Reach input st l) :
+    ∃ done, decodeAll input = done ++ l.cur.rest ∧ l.pos = linesOf done := by
+  obtain ⟨_, _, done, hin, hpos, _⟩ := reach_tinv input st l h
+  exact ⟨done, hin, hpos⟩
+
+/-- non-vacuity: a template with a non-ASCII rune before a fragment meets the hypothesis, and the script token
+`s` of `%p= s` on line 3 is reported at line 3, column 6 -/
+example : WF (decodeAll (bs "@goht T(s string) {\n\t%é\n\t%p= s\n}\n")) := by
+  show ∀ r ∈ decodeAll (bs "@goht T(s string) {\n\t%é\n\t%p= s\n}\n"), r.width = r.enc.length
+  decide +kernel
+example : ((lexResult (bs "@goht T(s string) {\n\t%é\n\t%p= s\n}\n")).toks.filter (fun t => isFrag t.typ)).map (fun t => (t.lit, t.line, t.col))
+    = [([115], 3, 6)] := by decide +kernel
+
 -- PLANNED: coverage — every fragment kind of the grammar reaches exactly one `Add`
 
 end GL.C07
